@@ -330,8 +330,7 @@ def coq_obs(c, item, shared=False):
             if not isinstance(v, list) or (v and not isinstance(v[0], bool)):
                 return BAD
             if shared:
-                # the event carries a reference to the live list: when one shared event advances two steps the
-                # handler of the first update already sees the second step (NOTES.md, "aliasing"); not compared
+                # known finding updated-value-aliased observed on this dispatch (aliased_groups): value not compared
                 return "(OEv %s (EUpdatedAny %s))" % (zlit(t), blit(en))
             return "(OEv %s (EUpdated 0 %s %s))" % (zlit(t), coqlist(blit(x) for x in v), blit(en))
         if not isinstance(v, int):
